@@ -23,6 +23,8 @@ func geodeticDistAlgo(center [2]float64) (
 		// distance algorithm is only defined for latitudes within [-90, 90].
 		min[1] = math.Max(min[1], -90)
 		max[1] = math.Min(max[1], 90)
+		min[0] = math.Max(min[0], -180)
+		max[0] = math.Min(max[0], 180)
 		return earthRadius * pointRectDistGeodeticDeg(
 			center[1], center[0],
 			min[1], min[0],
